@@ -32,11 +32,9 @@ Definition map_get (e : cenc) (k : N) : option nat :=
 
 (* the context of the next symbol from the symbols coded so far (most recent first) *)
 Definition ctx_key (order : N) (hist : list N) : option N :=
-  match order, hist with
-  | 1, p :: _ => Some p
-  | 2, p1 :: p2 :: _ => Some (p2 * 256 + p1)
-  | _, _ => None
-  end.
+  if order =? 1 then match hist with p :: _ => Some p | [] => None end
+  else if order =? 2 then match hist with p1 :: p2 :: _ => Some (p2 * 256 + p1) | _ => None end
+  else None.
 Definition push_hist (s : N) (hist : list N) : list N := s :: firstn 1 hist.
 (* the tree the decoder uses: context_map.get(&context).copied().unwrap_or(0) *)
 Definition ctx_tree (e : cenc) (hist : list N) : hufftree :=
@@ -128,28 +126,28 @@ Definition ctx_decode_g (skip : bool) (e : cenc) (bytes : list N) (outlen : nat)
       let bits := unpack bytes in
       let t0 := tree_at e 0 in
       let out :=
-        match c_order e with
-        | 0 => match ht_root t0 with
-               | None => None        (* Err("Empty tree") *)
-               | Some root => Some (dec_loop root root bits outlen)
-               end
-        | 1 => match dns skip t0 bits with
-               | None => Some []
-               | Some (s, b1) => Some (s :: ctx_loop skip e [s] b1 (outlen - 1))
-               end
-        | _ => (* for _ in 0..2.min(output_length) { decode with tree 0; break on Err } *)
-               match dns skip t0 bits with
-               | None => Some []
-               | Some (s1, b1) =>
-                   match outlen with
-                   | S O => Some [s1]
-                   | _ => match dns skip t0 b1 with
-                          | None => Some [s1]
-                          | Some (s2, b2) => Some (s1 :: s2 :: ctx_loop skip e [s2; s1] b2 (outlen - 2))
-                          end
-                   end
-               end
-        end in
+        if c_order e =? 0 then
+          match ht_root t0 with
+          | None => None        (* Err("Empty tree") *)
+          | Some root => Some (dec_loop root root bits outlen)
+          end
+        else if c_order e =? 1 then
+          match dns skip t0 bits with
+          | None => Some []
+          | Some (s, b1) => Some (s :: ctx_loop skip e [s] b1 (outlen - 1))
+          end
+        else (* for _ in 0..2.min(output_length) { decode with tree 0; break on Err } *)
+          match dns skip t0 bits with
+          | None => Some []
+          | Some (s1, b1) =>
+              match outlen with
+              | S O => Some [s1]
+              | _ => match dns skip t0 b1 with
+                     | None => Some [s1]
+                     | Some (s2, b2) => Some (s1 :: s2 :: ctx_loop skip e [s2; s1] b2 (outlen - 2))
+                     end
+              end
+          end in
       match out with
       | Some o => if length_is o outlen then Some o else None
       | None => None
